@@ -152,6 +152,26 @@ def ord (t : Tup) : M Int :=
   | [x] => pure x
   | _ => throw (.lib "TypeError")
 
+/-- `a <= b` on bytes objects given as tuples of octets: lexicographic, a proper prefix is smaller -/
+def tupLe : Tup → Tup → Bool
+  | [], _ => true
+  | _ :: _, [] => false
+  | a :: as, b :: bs => decide (a < b) || (a == b && tupLe as bs)
+
+/-- `max(map(len, xs))`; `ValueError` on an empty list -/
+def maxLen : List Tup → M Int
+  | [] => throw (.lib "ValueError")
+  | x :: xs => pure (xs.foldl (fun a c => max a (c.length : Int)) (x.length : Int))
+
+/-- `x.ljust(n, fill)` with a one-octet `fill` (TypeError otherwise): `x` followed by `n - len(x)` copies of the fill octet -/
+def ljust (x : Tup) (n : Int) (fill : Tup) : M Tup :=
+  match fill with
+  | [z] => pure (x ++ List.replicate (n - x.length).toNat z)
+  | _ => throw (.lib "TypeError")
+
+/-- `pairs.sort(key=lambda x: x[0])`: Python's sort is stable and orders by `<` on the keys -/
+def sortByFst (l : List (Tup × Tup)) : List (Tup × Tup) := l.mergeSort (fun a b => tupLe a.1 b.1)
+
 /-- `a and b`, `a or b` on ints (value semantics) -/
 def andI (a b : Int) : Int := if a != 0 then b else a
 def orI (a b : Int) : Int := if a != 0 then a else b
